@@ -34,9 +34,12 @@ type Case struct {
 	ReaderLate bool   `json:"reader_late"`         // the subscribers start reading only after the first burst was published (queue back-ends)
 	Sustained  int    `json:"sustained,omitempty"` // after the bursts: that many messages published back-to-back to fast readers
 	StatsCalls int    `json:"cancelled_stats_calls"`
-	Stop       string `json:"stop"`    // stop | cancel | wait-then-stop
-	StopAt     string `json:"stop_at"` // idle | backlog | mid-publish
-	Procs      int    `json:"gomaxprocs"`
+	Stop       string `json:"stop"` // stop | cancel | wait-then-stop | deadline (the broker's context expires by itself)
+	// ForeignUnsubs: Unsubscribe calls for channels that were never
+	// subscribed, issued before the traffic
+	ForeignUnsubs int    `json:"foreign_unsubscribes,omitempty"`
+	StopAt        string `json:"stop_at"` // idle | backlog | mid-publish
+	Procs         int    `json:"gomaxprocs"`
 }
 
 func (c *Case) lossless() bool {
@@ -97,6 +100,13 @@ func runCase(c *Case) (string, string) {
 	}
 	parent, cancelParent := context.WithCancel(context.Background())
 	defer cancelParent()
+	// stop mode "deadline": the broker lives in a context that ends with
+	// context.DeadlineExceeded when the run is to end
+	var expire func()
+	if c.Stop == "deadline" {
+		dctx := newExpiringContext(parent)
+		parent, expire = dctx, dctx.expire
+	}
 	b := mkBroker(parent, c)
 	ctx := context.Background()
 	// a Publish on a stopped broker only returns through its own context
@@ -128,6 +138,11 @@ func runCase(c *Case) (string, string) {
 		}
 		chans[i] = ch
 	}
+	for i := 0; i < c.ForeignUnsubs; i++ {
+		if !within(limit, func() { b.Unsubscribe(ctx, make(chan int)) }) {
+			return "api-blocks", "Unsubscribe of a channel that was never subscribed does not return"
+		}
+	}
 	startReaders := func() {
 		for _, ch := range chans {
 			rwg.Add(1)
@@ -155,6 +170,8 @@ func runCase(c *Case) (string, string) {
 	doStop := func() (string, string) {
 		stopped.Store(true)
 		switch c.Stop {
+		case "deadline":
+			expire()
 		case "cancel":
 			cancelParent()
 		case "wait-then-stop":
@@ -312,7 +329,7 @@ func genCase(t *rapid.T) *Case {
 		Subs:       rapid.IntRange(1, 3).Draw(t, "subscribers"),
 		ReadYield:  rapid.IntRange(0, 4).Draw(t, "readYield"),
 		ReaderLate: rapid.Bool().Draw(t, "readerLate"),
-		Stop:       rapid.SampledFrom([]string{"stop", "cancel", "wait-then-stop"}).Draw(t, "stop"),
+		Stop:       rapid.SampledFrom([]string{"stop", "cancel", "wait-then-stop", "deadline"}).Draw(t, "stop"),
 		StopAt:     rapid.SampledFrom([]string{"idle", "idle", "backlog", "mid-publish"}).Draw(t, "stopAt"),
 		Procs:      rapid.SampledFrom([]int{1, 2, 4, 16}).Draw(t, "gomaxprocs"),
 	}
@@ -326,6 +343,9 @@ func genCase(t *rapid.T) *Case {
 		c.Sustained = rapid.SampledFrom([]int{2000, 10000, 30000}).Draw(t, "sustainedN")
 		c.ReadYield = 0
 		c.StopAt = "idle"
+	}
+	if rapid.IntRange(0, 3).Draw(t, "foreignUnsubs") == 0 {
+		c.ForeignUnsubs = rapid.IntRange(1, 3).Draw(t, "foreignUnsubsN")
 	}
 	nb := rapid.IntRange(1, 3).Draw(t, "bursts")
 	for i := 0; i < nb; i++ {
@@ -378,3 +398,40 @@ func TestBrokerProgressAndShutdown(t *testing.T) {
 		vkit.CaseN(tProg, vkit.Hash(*c), reps, maxBurst >= 2 || c.StopAt != "idle", cls, func() any { return *c })
 	})
 }
+
+// expiringContext is a context that ends with context.DeadlineExceeded when
+// expire is called (or with its parent's error when the parent ends): what a
+// context.WithTimeout looks like to its users at the moment the time is up,
+// without the harness having to guess how long a scenario takes.
+type expiringContext struct {
+	context.Context
+	done chan struct{}
+	once sync.Once
+	err  atomic.Value
+}
+
+func newExpiringContext(parent context.Context) *expiringContext {
+	c := &expiringContext{Context: parent, done: make(chan struct{})}
+	go func() {
+		select {
+		case <-parent.Done():
+			c.finish(parent.Err())
+		case <-c.done:
+		}
+	}()
+	return c
+}
+
+func (c *expiringContext) finish(err error) {
+	c.once.Do(func() { c.err.Store(err); close(c.done) })
+}
+
+func (c *expiringContext) expire()               { c.finish(context.DeadlineExceeded) }
+func (c *expiringContext) Done() <-chan struct{} { return c.done }
+func (c *expiringContext) Err() error {
+	if e, _ := c.err.Load().(error); e != nil {
+		return e
+	}
+	return nil
+}
+func (c *expiringContext) Deadline() (time.Time, bool) { return time.Now().Add(time.Hour), true }
